@@ -241,3 +241,77 @@ def model_rows(mesh, opts, evol):
         diag = tuple(-sum(c[1][a] for c in cs) for a in range(3))
         rows.append(cs + [(i, diag)])
     return rows
+
+
+# ------------------------------------------------ second order / mixed meshes
+TET_EDGES = [(1, 2), (0, 2), (0, 1), (0, 3), (1, 3), (2, 3)]     # mid nodes 5..10 of a tet2
+
+
+def to_tet2(rng, mesh):
+    """tet -> tet2: coordinates doubled (mid-edge nodes stay integer), one new
+    node per edge with a fresh sparse id; storage order of the nodes reshuffled"""
+    assert mesh['etype'] == 'tet'
+    xyz = {i: tuple(2 * c for c in p) for i, p in zip(mesh['node_ids'], mesh['xyz'])}
+    used = set(mesh['node_ids'])
+    mid = {}
+    conn = []
+    for e in mesh['conn']:
+        row = list(e)
+        for a, b in TET_EDGES:
+            k = tuple(sorted((e[a], e[b])))
+            if k not in mid:
+                new = rng.randrange(1, 60 * len(used) + 1000)
+                while new in used:
+                    new += 1
+                used.add(new)
+                mid[k] = new
+                xyz[new] = tuple((x + y) // 2 for x, y in zip(xyz[k[0]], xyz[k[1]]))
+            row.append(mid[k])
+        conn.append(row)
+    ids = list(xyz)
+    rng.shuffle(ids)
+    return {'etype': 'tet2', 'k1': 4, 'node_ids': ids, 'xyz': [list(xyz[i]) for i in ids],
+            'elem_ids': list(mesh['elem_ids']), 'conn': conn,
+            'descr': dict(mesh['descr'], etype='tet2')}
+
+
+def gen_mixed(rng, dims, map_name='id', id_mode='sparse'):
+    """lattice whose cells are hexes or Kuhn-split tets (node-sharing graph;
+    no jitter so that hex volumes are exact); flat element list = hex block
+    then tet block"""
+    base = gen_mesh(rng, 'hex', dims, spacing_max=2, jitter=False, map_name=map_name,
+                    id_mode=id_mode, shuffle=True)
+    pos = {i: tuple(p) for i, p in zip(base['node_ids'], base['xyz'])}
+    hexes, tets = [], []
+    for k, e in enumerate(base['conn']):
+        if (k == 0) or (k != 1 and rng.random() < 0.5):
+            hexes.append(list(e))
+        else:
+            # local hex node (dx,dy,dz) -> id
+            loc = {HEX_LOCAL[j]: e[j] for j in range(8)}
+            for tet in KUHN:
+                t = [loc[c] for c in tet]
+                p = [pos[i] for i in t]
+                if det3(sub(p[1], p[0]), sub(p[2], p[0]), sub(p[3], p[0])) < 0:
+                    t[2], t[3] = t[3], t[2]
+                tets.append(t)
+    ne = len(hexes) + len(tets)
+    eids = rng.sample(range(1, 50 * ne + 100), ne)
+    blocks = [['hex', 0, len(hexes)], ['tet', len(hexes), ne]]
+    return {'etype': 'mix', 'node_ids': base['node_ids'], 'xyz': base['xyz'], 'elem_ids': eids,
+            'conn': hexes + tets, 'blocks': blocks,
+            'descr': dict(base['descr'], etype='mix', n_hex=len(hexes), n_tet=len(tets))}
+
+
+def reduce_order1(mesh):
+    """the mesh femio works on in nodal mode with order1_only=True"""
+    k1 = mesh['k1']
+    conn = [e[:k1] for e in mesh['conn']]
+    used = {i for e in conn for i in e}
+    keep = [k for k, i in enumerate(mesh['node_ids']) if i in used]
+    out = dict(mesh)
+    out['node_ids'] = [mesh['node_ids'][k] for k in keep]
+    out['xyz'] = [mesh['xyz'][k] for k in keep]
+    out['conn'] = conn
+    out['order1_keep'] = keep
+    return out
